@@ -17,6 +17,7 @@ THEOREMS = [
     "Spowtd.rise_curve_shift",
 ]
 TRUSTED_BASE = TRUSTED
+SQL_TIE = ('load', 'classify')
 ASSUMPTIONS = ASSUME + [
     "the theorem classify_shift is true of the model because the model never forms epoch/3600; the weight is on the "
     "correspondence at many origins (bit-exact flags) and on the relational oracle, which compares two runs of the "
